@@ -15,6 +15,7 @@ class _Cexptrk_Potential_Function(object):
     self._potential_form_tuple = potential_form_tuple
     self._local_symbol_table = self._init_symbol_table()
     self._expression = None
+    self._evaluating = False
 
   def _init_symbol_table(self):
     local_symbol_table = cexprtk.Symbol_Table({}, add_constants = True)
@@ -65,12 +66,21 @@ class _Cexptrk_Potential_Function(object):
     if len(args) != len(parameter_names):
       raise Potential_Form_Exception("Potential function '{}' requires {} arguments but {} were provided".format(
         self._potential_form_tuple.signature.label, len(parameter_names), len(args)))
+    if self._evaluating:
+      # The form is being called while one of its own evaluations is still in progress. Its parameters live in one
+      # symbol table, the inner call would overwrite those of the outer one (and unbounded recursion ends in RecursionError).
+      raise Potential_Form_Exception("Potential function '{}' is defined in terms of itself (directly or through another potential-form), recursive definitions are not supported".format(
+        self._potential_form_tuple.signature.label))
     for (pn, v) in zip(parameter_names, args):
       self._local_symbol_table.variables[pn] = v
 
     try:
       self._parse_expression()
-      retval = self._expression()
+      self._evaluating = True
+      try:
+        retval = self._expression()
+      finally:
+        self._evaluating = False
       return retval
     except Potential_Form_Exception as e:
       msg = e.args[0]
